@@ -232,6 +232,13 @@ func TestVerifHooks(t *testing.T) {
 				}
 			case "sleep":
 				time.Sleep(time.Duration(s.Ms) * time.Millisecond)
+			case "dirmode": // the hooks directory becomes unusable (world-writable) / usable again
+				if s.S == "bad" {
+					os.Chmod(hooks, 0777)
+				} else {
+					os.Chmod(hooks, 0755)
+				}
+				emit("dirmode", s.S, 0)
 			case "hold":
 				gt.arm("hooks.loop")
 				gt.waitParked(time.Second, "hooks.loop")
